@@ -19,7 +19,8 @@ RULE = (
     "whose non-default answers are 'raise OptimizationAborted(USER_ABORT) here' (and, at evaluator calls, 'all rows fail'). "
     "ALL executions with <=2 deviations (quick) / <=3 deviations (thorough): failures and max_functions stops before the "
     "abort, are run to completion. Plan shapes: optimizer step; evaluator step; two sequential optimizer steps; nested "
-    "plan (outer optimizer step whose nested inner plan runs an optimizer step); BasicOptimizer with set_abort_callback "
+    "plan (outer optimizer step whose nested inner plan runs an optimizer step); the same inner plan object reused by a "
+    "second, different outer plan; BasicOptimizer with set_abort_callback "
     "(abort at every call index). Monitors: per-source stream grammar START_x (START_EVALUATION FINISHED_EVALUATION)* "
     "[START_EVALUATION] FINISHED_x with the unmatched START_EVALUATION only when the evaluation itself raised; each event "
     "object delivered at most once to every receiver and, before the abort, exactly once in the order handlers of the "
@@ -30,7 +31,7 @@ ASSUMPTIONS = [
     "receivers after the aborting receiver of the same event may or may not see that event (unspecified); never twice",
     "an abort raised by an observer/handler while an evaluator STEP runs is outside the quantifier (evaluator steps: evaluator-raised aborts only)",
 ]
-BOUNDS = {"quick": "deviation bound 2 over 5 plan shapes x max_functions variants", "thorough": "deviation bound 3"}
+BOUNDS = {"quick": "deviation bound 2 over 6 plan shapes x max_functions variants", "thorough": "deviation bound 3"}
 
 POINTS = {"A": [0.5, -0.25], "B": [-1.0, 1.0], "C": [2.0, 0.5]}
 
@@ -69,6 +70,8 @@ class World:
         self.abort_at: tuple[str, Any] | None = None  # where the abort was injected
         self.eval_raised: list[int] = []  # ordinals of START_EVALUATION events whose evaluation raised
         self.open_eval: int | None = None
+        self.phase = 0  # which outer plan is running (shape nested-reused)
+        self.event_phase: dict[int, int] = {}
 
     def ordinal(self, event: Any) -> int:
         key = id(event)
@@ -82,6 +85,7 @@ class World:
         from ropt.exceptions import OptimizationAborted
 
         k = self.ordinal(event)
+        self.event_phase.setdefault(k, self.phase)
         self.deliveries.append((receiver, k))
         if event.event_type == EventType.START_EVALUATION:
             self.open_eval = k
@@ -189,6 +193,38 @@ def run_shape(shape: str, variant: dict[str, Any], chooser: Chooser) -> dict[str
             outer_script = [[[0.25], True, False], [[1.0], True, True]]
             out["codes"].append(outer.run_step(outer_step, config=base_config(outer_script, mask=[True, False], max_functions=max_functions),
                                                nested_optimization=inner))
+        elif shape == "nested-reused":
+            # the SAME inner plan object is first used by outer plan A and then by a different outer plan B
+            inner = Plan(context)
+            add_recorder(inner, world, "h-inner")
+            inner_step = inner.add_step("optimizer")
+            inner_tracker = inner.add_handler("tracker", sources={inner_step})
+            inner_script = [[[0.75], True, False]]
+
+            def inner_fn2(plan: Any, variables: Any) -> Any:
+                plan.run_step(inner_step, config=base_config(inner_script, mask=[False, True]), variables=variables)
+                return plan.get(inner_tracker, "results")
+
+            inner.add_function(inner_fn2)
+            outer_a, outer_b = Plan(context), Plan(context)
+            add_recorder(outer_a, world, "h-outer-a")
+            add_recorder(outer_b, world, "h-outer-b")
+            step_a, step_b = outer_a.add_step("optimizer"), outer_b.add_step("optimizer")
+            out["chain"] = {str(step_a): ["h-outer-a", "observer"], str(step_b): ["h-outer-b", "observer"],
+                            (str(inner_step), 0): ["h-inner", "h-outer-a", "observer"], (str(inner_step), 1): ["h-inner", "h-outer-b", "observer"]}
+            out["plans"] = [outer_a]
+            outer_script = [[[0.25], True, False]]
+            out["retry"] = (outer_a, step_a, base_config(outer_script, mask=[True, False]))
+            out["codes"].append(outer_a.run_step(step_a, config=base_config(outer_script, mask=[True, False]), nested_optimization=inner))
+            if world.abort_at is None:
+                world.phase = 1
+                out["plans"] = [outer_b]
+                out["retry"] = (outer_b, step_b, base_config(outer_script, mask=[True, False]))
+                out["codes"].append(outer_b.run_step(step_b, config=base_config(outer_script, mask=[True, False]), nested_optimization=inner))
+                if world.abort_at is not None:
+                    out["plans"] = [outer_b, inner]
+            else:
+                out["plans"] = [outer_a, inner]
     except Exception as exc:  # noqa: BLE001
         out["exception"] = f"{type(exc).__name__}"
         out["exception_obj"] = exc
@@ -293,8 +329,10 @@ def judge_run(shape: str, variant: dict[str, Any], choices: list[int], run: dict
             loc = {EventType.START_OPTIMIZER_STEP: "step-start-event", EventType.FINISHED_OPTIMIZER_STEP: "step-finished-event",
                    EventType.START_EVALUATOR_STEP: "step-start-event", EventType.FINISHED_EVALUATOR_STEP: "step-finished-event",
                    EventType.START_EVALUATION: "evaluation-start-event", EventType.FINISHED_EVALUATION: "evaluation-finished-event"}[etype]
-    inner_abort = shape == "nested" and abort_source is not None and run["chain"].get(abort_source, [""])[0] == "h-inner"
-    if shape == "nested" and aborted:
+    nested_shape = shape in ("nested", "nested-reused")
+    inner_chain = run["chain"].get(abort_source) or run["chain"].get((abort_source, 0)) or [""]
+    inner_abort = nested_shape and abort_source is not None and inner_chain[0] == "h-inner"
+    if nested_shape and aborted:
         loc += ":inner" if inner_abort else ":outer"
     where = loc
     j.transitions = len(world.deliveries)
@@ -310,7 +348,7 @@ def judge_run(shape: str, variant: dict[str, Any], choices: list[int], run: dict
             j.fail("USER_ABORT-without-abort", **detail)
     if aborted:
         # the plan in which the abort arose and its ancestors must be marked (plans[0] is the outermost plan)
-        required = run["aborted_flags"] if (shape != "nested" or inner_abort) else run["aborted_flags"][:1]
+        required = run["aborted_flags"] if (not nested_shape or inner_abort) else run["aborted_flags"][:1]
         if not all(required) or not required:
             j.fail(f"plan-not-marked-aborted:{shape}:{where}", flags=run["aborted_flags"], **detail)
         if run["refused"] is not True:
@@ -324,7 +362,7 @@ def judge_run(shape: str, variant: dict[str, Any], choices: list[int], run: dict
     abort_event = world.abort_at[1][1] if aborted and world.abort_at[0] == "delivery" else None
     for k, receivers in per_event.items():
         event = world.events[k]
-        chain = run["chain"].get(str(event.source))
+        chain = run["chain"].get((str(event.source), world.event_phase.get(k, 0)), run["chain"].get(str(event.source)))
         if chain is None:
             j.fail("event-from-unknown-source", **detail)
             continue
@@ -383,14 +421,14 @@ def judge_run(shape: str, variant: dict[str, Any], choices: list[int], run: dict
     return j
 
 
-SHAPES = ["optimizer", "evaluator", "sequential", "nested", "basic"]
+SHAPES = ["optimizer", "evaluator", "sequential", "nested", "nested-reused", "basic"]
 
 
 def shards(tier: str, seed: int) -> list[dict[str, Any]]:
     out = []
     for shape in SHAPES:
         variants: list[dict[str, Any]] = [{}]
-        if shape in ("optimizer", "sequential", "nested"):
+        if shape in ("optimizer", "sequential", "nested"):  # (nested-reused: no budget variants)
             variants += [{"max_functions": 1}, {"max_functions": 2}]
         for variant in variants:
             out.append({"shape": shape, "variant": variant, "tier": tier})
